@@ -36,15 +36,15 @@ type Profile struct {
 	// SettleSlashPct: with SettleBeforeValueChange, percentage of slashes that are preceded by claim_all
 	// (0 means always). The remaining slashes hit positions with unclaimed rewards: the oracles
 	// stop judging exact amounts for such histories but keep their structural checks.
-	SettleSlashPct int
-	HugeAmounts             bool
-	InvalidPct              int  // percentage of user ops deliberately targeting invalid inputs
-	FocusDelPct             int  // percentage of delegator draws forced to delegator 0 (packs buckets)
-	BoundaryPct             int  // percentage of block steps aimed at a pending completion instant (-1ns/=/+1ns); 0 = default 25
-	RepeatPct               int  // percentage of undelegate/redelegate draws that act again on the position touched last; 0 = default 25
-	FocusValPct             int  // percentage of delegate draws forced to validator 0 (several assets on one validator)
-	GovFuzz                 bool // governance messages with nil / negative / boundary / huge field values and all signers
-	NoOverflowGuard         bool
+	SettleSlashPct  int
+	HugeAmounts     bool
+	InvalidPct      int  // percentage of user ops deliberately targeting invalid inputs
+	FocusDelPct     int  // percentage of delegator draws forced to delegator 0 (packs buckets)
+	BoundaryPct     int  // percentage of block steps aimed at a pending completion instant (-1ns/=/+1ns); 0 = default 25
+	RepeatPct       int  // percentage of undelegate/redelegate draws that act again on the position touched last; 0 = default 25
+	FocusValPct     int  // percentage of delegate draws forced to validator 0 (several assets on one validator)
+	GovFuzz         bool // governance messages with nil / negative / boundary / huge field values and all signers
+	NoOverflowGuard bool
 }
 
 // generator-only composite kinds
